@@ -38,7 +38,33 @@ type crashSite struct {
 }
 
 func (s crashSite) Key() string {
-	return fmt.Sprintf("%s %s %s", s.Class, FuncName(s.Fn), s.What)
+	return fmt.Sprintf("%s %s %s", s.Class, stableFuncName(s.Fn), s.What)
+}
+
+// stableFuncName: like FuncName, but a closure is named after what it does (the first function it
+// calls) instead of its position among the closures of the enclosing function, which changes
+// whenever a sibling closure is added, removed or turned into a named function.
+func stableFuncName(fn *ssa.Function) string {
+	if fn.Parent() == nil {
+		return FuncName(fn)
+	}
+	tag := ""
+	allInstrs(fn, func(in ssa.Instruction) {
+		if tag != "" {
+			return
+		}
+		if cc := callCommon(in); cc != nil {
+			n := calleeName(cc)
+			if _, isB := cc.Value.(*ssa.Builtin); isB || strings.Contains(n, "logrus") || strings.HasPrefix(n, "fmt.") || strings.HasPrefix(n, "log.") {
+				return
+			}
+			tag = short(n)
+		}
+	})
+	if tag == "" {
+		return FuncName(fn)
+	}
+	return stableFuncName(fn.Parent()) + "$[" + tag + "]"
 }
 
 // runtimeFunctions: functions that can execute after start-up.
